@@ -1,9 +1,9 @@
 package main
 
 import (
-	"go/types"
 	"fmt"
 	"go/token"
+	"go/types"
 	"sort"
 	"strings"
 
@@ -297,7 +297,7 @@ func checkC10(c *Ctx, r *Report) {
 		var exch *ssa.Call
 		allInstrs(sc, false, func(in ssa.Instruction) {
 			if call, ok := in.(*ssa.Call); ok {
-				if f := call.Call.StaticCallee(); f != nil && starters[f] {
+				if f := viewCallee(sc, call); f != nil && starters[f] {
 					exch = call
 				}
 			}
@@ -397,7 +397,6 @@ func (c *Ctx) wrapperInner(sel string) (string, bool) {
 	}
 	return inner, n > 0 && okAll && inner != ""
 }
-
 
 // checkClosureExits classifies every exit of the send closures and checks the terminal-error
 // plumbing of the in-session one. Shared with C13, whose last clause ("no call reports
